@@ -580,9 +580,11 @@ fn c11_write_grow_bounded_len0() {
 fn c11_write_grow_bounded_boundaries() {
     let mut ok = 0;
     let mut refused = 0;
-    let cases: [(usize, usize); 5] = [(1, 0), (1, 9), (2, 0), (2, 5), (2, 14)];
+    // (2,7)/(2,9): position > 0 without auto-shift, and the new frame fits only once the
+    // pending bytes are compacted (pending + frame <= max < position + pending + frame)
+    let cases: [(usize, usize); 6] = [(1, 0), (1, 9), (2, 5), (2, 7), (2, 9), (2, 14)];
     let mut i = 0;
-    while i < 5 {
+    while i < 6 {
         if write_grow_bounded(cases[i].0, cases[i].1, 4) == R_OK {
             ok += 1;
         } else {
